@@ -22,6 +22,9 @@ def flatten_chain(stmts):
                 if cur.orelse:
                     out.append((None, cur.orelse, cur))
                 break
+    # early-return style: a trailing top-level `return` is the final else
+    if stmts and isinstance(stmts[-1], ast.Return) and out and not any(t is None and n is out[-1][2] for t, b, n in out[-1:]):
+        out.append((None, [stmts[-1]], stmts[-1]))
     return out
 
 
@@ -85,6 +88,12 @@ def r1_subtler_chain(ctx):
     ob("Any->type[object]", i_any is not None and _is_type_sub(_branch_return(chain[i_any][1]), "object"), "typing.Any passed as an argument is keyed as type[object]", "typing.Any is not keyed as type[object]: passing Any no longer counts as object", chain[i_any][2] if i_any is not None else None)
     ob("class->type[obj]", i_class is not None and _is_type_sub(_branch_return(chain[i_class][1]), p), "a class passed as an argument is keyed as type[obj]", "classes are no longer keyed as type[cls]", chain[i_class][2] if i_class is not None else None)
     ob("Any-before-class", i_any is not None and i_class is not None and i_any < i_class, "the typing.Any branch precedes the class branch (typing.Any is itself a class on Python 3.11+)", "the class branch catches typing.Any first and keys it as type[typing.Any]: Any no longer counts as object")
+    if isinstance(default, ast.Name):
+        for n in ast.walk(f.node):
+            if isinstance(n, ast.NamedExpr) and n.target.id == default.id:
+                default = n.value
+            elif isinstance(n, ast.Assign) and any(dotted(t) == default.id for t in n.targets):
+                default = n.value
     ob("default->type(obj)", isinstance(default, ast.Call) and call_name(default) == "type" and len(default.args) == 1 and dotted(default.args[0]) == p, "ordinary arguments are keyed by their class", "ordinary (non-type) arguments no longer dispatch on type(obj)")
 
 
@@ -297,7 +306,45 @@ def r6_entry_point_republished(ctx):
     r3_rebuild_from_nothing(ctx)
 
 
+def r7_every_parameter_can_be_type_valued(ctx):
+    """The set of positions / names keyed by the type-valued key function is filled from every parameter of every
+    method - positional or keyword-only - whose annotation is a generic alias."""
+    repo = ctx.repo
+    an = A.argument_analyzer(repo)
+    sel = an.methods.get("lookup_for")
+    ctx.require(sel is not None, "no per-position selector")
+    attrs = [x.attr for x in ast.walk(sel.node) if is_self_attr(x, selfname=recv_name(sel))]
+    ctx.require(attrs, f"{sel.key}: the selector consults no attribute")
+    cattr = attrs[0]
+    n = 0
+    from .common import holds_at
+
+    for m in an.methods.values():
+        rv = recv_name(m)
+        for c in ast.walk(m.node):
+            if isinstance(c, ast.Call) and isinstance(c.func, ast.Attribute) and c.func.attr in ("update", "add") and is_self_attr(c.func.value, cattr, selfname=rv):
+                n += 1
+                ctx.touch(m)
+                # restricted to positional parameters?
+                restricted = holds_at(ctx, m, c, lambda a: a[0] == "cmp" and a[1] == "IsNot" and "position" in src(a[2]) + src(a[3]) and "None" in (src(a[2]), src(a[3])))
+                filt = False
+                for g in ast.walk(c):
+                    if isinstance(g, ast.comprehension):
+                        for cond in g.ifs:
+                            if "position" in src(cond):
+                                filt = True
+                ctx.ob(
+                    f"{m.key}:{cattr}",
+                    m.loc(c),
+                    f"`{short(c, 60)}` records every parameter with a generic-alias annotation, positional or keyword-only",
+                    not restricted and not filt,
+                    f"`{short(c, 60)}` only runs for positional parameters: a keyword-only parameter annotated type[...] is keyed with type(), so a class passed for it is looked up as its metaclass and no type[...] method ever applies",
+                )
+    ctx.require(n, f"{an.key}: nothing fills `{cattr}`")
+
+
 RULES = [
+    ("C14.R7", "P1", r7_every_parameter_can_be_type_valued, "keyword-only parameters can be type-valued too"),
     ("C14.R4", "P1", r4_positions, "the key function is chosen for the parameter's real position"),
     ("C14.R5", "P1", r5_generic_arguments, "parametrised generics are compared argument-wise under a length test"),
     ("C14.R6", "P1", r6_entry_point_republished, "a rebuild re-publishes the entry point's helpers (the type-valued key function among them)"),
